@@ -7,6 +7,35 @@ HERE = os.path.dirname(os.path.dirname(os.path.abspath(__file__)))
 
 # id -> (engine, category, technique, level text, level_note, design_ref)
 CHECKS = {
+    'C01': ('E1-bfs', 'model_checking',
+            'complete product enumeration of verbs x closed operand universe (plus depth-2 closure over runtime '
+            'representations) on the real interpreter vs. a reference model transcribed from the reference text',
+            'Every monad x operand and dyad x ordered operand pair of a closed universe (atoms of every kind, strings, '
+            'vectors, matrices, rank 3, nested and ragged lists) is evaluated as source text and compared with '
+            'mc/ref/verbs.py, which reproduces the 191 examples of the reference; compositions whose intermediate '
+            'result has a runtime representation no literal produces are added. Judged only inside the domain the '
+            'reference defines; accept sets where the text is silent.',
+            'Trusted base: the reference model (self-checked against the reference examples). Operands outside the '
+            'universe are not covered. Many genuine deviations are listed as known findings (exact input + outcome).',
+            'DESIGN.md §3 C01, Appendix A'),
+    'C09': ('E1-bfs', 'model_checking',
+            'exhaustive product over signatures x arguments x call forms with call logs, and explicit-state BFS over '
+            'redefinition/deletion histories of the Python-side wrapper vs. a name->binding model',
+            'Data round trip for a closed value universe; every signature over (klong, x, y, z) x argument tuples x '
+            'call forms with an instrumented call log (exactly one call, positional arguments, result = return value); '
+            'BFS over histories of redefine/delete/re-read/call for wrappers obtained as klong[name], compared with '
+            'the Klong-level call; .pyf/.py imports.',
+            'Built by a sub-agent from DESIGN.md; state merging on (binding, captured binding per wrapper). Known '
+            'finding: Python list / symbol value in function position.',
+            'DESIGN.md §3 C09'),
+    'C11': ('E1-bfs', 'exploration',
+            'complete enumeration of a closed value universe through the real writer -> reader round trip',
+            'Every value of the universe (all strings <= 3 over a 10-character alphabet incl. quotes/newlines/brackets, '
+            'extreme numbers, characters, symbols, all lists <= 3 nested to depth 3, dictionaries) is injected as a '
+            'Python/NumPy object, written with the real .w, read back with .rs and .r, compared in canonical form and '
+            're-written; Form inverts Format for atoms.',
+            'Exhaustive over the stated universe only; -0.0, nan, inf excluded; numeric-block promotion.',
+            'DESIGN.md §3 C11'),
     'C10': ('E1-bfs', 'model_checking',
             'explicit-state BFS over operation histories on the real interpreter vs. reference dict model',
             'All dictionary operation histories up to the stated depth over keys of every hashable kind, aliases and '
@@ -82,7 +111,19 @@ CHECKS = {
             'DESIGN.md §3 C18, Appendix B, F'),
 }
 
-NOT_YET = 'check not built yet in this session (work in progress; see DESIGN.md for the planned exploration)'
+CHECKS['C20'] = (
+    'E1-bfs', 'model_checking',
+    'exhaustive enumeration of route tables x request histories against real .web servers on loopback, and of '
+    'websocket message sequences against the real .ws client, vs. a route-table model and call log',
+    'All subsets of 3 GET + 3 POST routes (quick: 8) x all request sequences up to the bound (every registered route '
+    'x parameter dictionaries incl. non-ASCII / URL-encoded, wrong method, unknown path, raising handler), handler '
+    'redefinition and .webc; every sequence of <= 3 websocket messages over the JSON kinds. Each response, the '
+    'Klong-side log and the exactly-once property are compared with the model.',
+    'Real aiohttp/websockets, real loops, sequential requests: exhaustive over tables and histories, not over '
+    'schedules. Built by a sub-agent from DESIGN.md.',
+    'DESIGN.md §3 C20')
+
+NOT_YET ='check not built yet in this session (work in progress; see DESIGN.md for the planned exploration)'
 
 ALL = ['C%02d' % i for i in range(1, 21)]
 
